@@ -119,7 +119,73 @@ def fastAt (m : Mode) (f : Img α) (axis : Nat) (w : Array α) (p : List Int) : 
   let x := (p.getD axis 0).toNat
   if (interiorXs w.size N1).contains x then fastInterior line w 0 x else fastBorder m line w N1 0 x
 
+/-- `convolve1d(f, w, axis, mode)` (Python) with the weights already cast: path choice
+    `f.flags.contiguous and len(w) < f.shape[axis]`; `cast` is the store into the output dtype. -/
+def convolve1dG (cast : α → α) (isZero : α → Bool) (m : Mode) (f : Img α) (contig : Bool) (axis : Nat)
+    (w : Array α) : List α × Bool :=
+  let N1 := f.shape.getD axis 1
+  if contig && decide (w.size < N1) then
+    ((allPos f.shape).map fun p => cast (fastAt m f axis w p), true)
+  else
+    let sup := support isZero (embedShape f.shape.length axis w.size) w
+    ((allPos f.shape).map fun p => cast (convAcc m f sup p), false)
+
+/-- one pass of `gaussian_filter`: `gaussian_filter1d` (= `convolve1d` with the weights `w`) along
+    `ax` on a C-contiguous buffer, result stored in a buffer of the same shape -/
+def gaussianPass (cast : α → α) (isZero : α → Bool) (m : Mode) (cur : Img α) (ax : Nat) (w : Array α) : Img α :=
+  { shape := cur.shape, data := (convolve1dG cast isZero m cur true ax w).1.toArray }
+
+/-- `gaussian_filter`: `for axis in range(array.ndim)` one pass per axis, weights `ws axis` -/
+def gaussianFilterG (cast : α → α) (isZero : α → Bool) (m : Mode) (f : Img α) (ws : Nat → Array α) : Img α :=
+  (List.range f.shape.length).foldl (fun cur ax => gaussianPass cast isZero m cur ax (ws ax)) f
+
 end kernels
+
+/-! ### Gaussian weights, polymorphic in the scalars and in the exponential -/
+
+section gauss
+variable {K : Type} [Add K] [Sub K] [Mul K] [Div K] [Neg K] [Zero K]
+
+/-- the factor of one sample: `weights *= …` of `gaussian_filter1d` for the derivative order
+    (`x` the abscissa, `v` the normalised Gaussian sample); orders above 3 are refused by the code -/
+def gaussTerm (ofNat : Nat → K) (s2 : K) (order : Nat) (x v : K) : K :=
+  match order with
+  | 0 => v
+  | 1 => v * (-x / s2)
+  | 2 => v * ((x * x / s2 - ofNat 1) / s2)
+  | _ => v * ((ofNat 3 - x * x / s2) * x / (s2 * s2))
+
+/-- the weights of `gaussian_filter1d` for `lw = int(4σ + 0.5)`, `s2 = σ²`: samples `e x` of
+    `exp(−x²/2σ²)` at `x = i − lw`, `i = 0 … 2·lw`, normalised by their sum, multiplied by the
+    derivative polynomials, odd orders flipped (the kernel is applied by correlation). `ofNat` embeds
+    the naturals (`np.arange(…, dtype=float)` and the literals `1.`, `3.0`); the driver passes
+    `Float.ofNat` and `fun x => Float.exp (x * x / (-2.0 * s2))`, the theorems `Nat.cast` and any
+    positive even function. -/
+def gaussWeightsG (ofNat : Nat → K) (e : K → K) (s2 : K) (lw order : Nat) : Array K :=
+  let xs := (List.range (2 * lw + 1)).map fun i => ofNat i - ofNat lw
+  let g := xs.map e
+  let tot := g.foldl (· + ·) 0
+  let g := g.map (· / tot)
+  let ws := (List.zip xs g).map fun xv => gaussTerm ofNat s2 order xv.1 xv.2
+  (if order % 2 == 1 then ws.reverse else ws).toArray
+
+end gauss
+
+/-! ### `laplacian_2D` weights -/
+
+section laplacian
+variable {K : Type} [Add K] [Sub K] [Div K] [Neg K]
+
+/-- the 3×3 weights of `laplacian_2D(array, alpha)` in C order, `alpha` already clamped to `[0, 1]`:
+    `ver_hor_weight = (1. - alpha) / (alpha + 1.)`, `diag_weight = alpha / (alpha + 1.)`,
+    `center = -4. / (alpha + 1.)`. -/
+def laplacianWeightsG (ofNat : Nat → K) (alpha : K) : Array K :=
+  let vh := (ofNat 1 - alpha) / (alpha + ofNat 1)
+  let dg := alpha / (alpha + ofNat 1)
+  let ce := (-(ofNat 4)) / (alpha + ofNat 1)
+  #[dg, vh, dg, vh, ce, vh, dg, vh, dg]
+
+end laplacian
 
 /-! ### Float instantiation: dtype casts, Gaussian weights, driver -/
 
@@ -153,13 +219,7 @@ def normAxis (ndim : Nat) (axis : Int) : Nat := (if axis < 0 then axis + ndim el
     both paths see the weights cast to `f.dtype` (the fast path then widens them to double). -/
 def convolve1dModel (dt : String) (m : Mode) (f : Img Float) (contig : Bool) (axis : Nat) (w : Array Float) :
     List Float × Bool :=
-  let wc := w.map (castTo dt)
-  let N1 := f.shape.getD axis 1
-  if contig && decide (w.size < N1) then
-    ((allPos f.shape).map fun p => castTo dt (fastAt m f axis wc p), true)
-  else
-    let sup := support fIsZero (embedShape f.shape.length axis w.size) wc
-    ((allPos f.shape).map fun p => castTo dt (convAcc m f sup p), false)
+  convolve1dG (castTo dt) fIsZero m f contig axis (w.map (castTo dt))
 
 def convolve1dSpec (dt : String) (m : Mode) (f : Img Float) (axis : Nat) (w : Array Float) : List Float :=
   convolveSpec dt m f (embedShape f.shape.length axis w.size) w
@@ -169,27 +229,21 @@ def convolve1dSpec (dt : String) (m : Mode) (f : Img Float) (axis : Nat) (w : Ar
 def gaussWeights (sigma : Float) (order : Nat) : Array Float :=
   let s2 := sigma * sigma
   let lw := (4.0 * sigma + 0.5).floor.toUInt64.toNat
-  let xs := (List.range (2 * lw + 1)).map fun i => Float.ofNat i - Float.ofNat lw
-  let g := xs.map fun x => Float.exp (x * x / (-2.0 * s2))
-  let tot := g.foldl (· + ·) 0
-  let g := g.map (· / tot)
-  let ws := (List.zip xs g).map fun (x, v) =>
-    match order with
-    | 0 => v
-    | 1 => v * (-x / s2)
-    | 2 => v * ((x * x / s2 - 1.0) / s2)
-    | _ => v * ((3.0 - x * x / s2) * x / (s2 * s2))
-  (if order % 2 == 1 then ws.reverse else ws).toArray
+  gaussWeightsG Float.ofNat (fun x => Float.exp (x * x / (-2.0 * s2))) s2 lw order
 
 /-- `gaussian_filter`: successive `gaussian_filter1d` along axes 0, 1, …; every pass stores in `dt`. -/
 def gaussianFilterModel (dt : String) (m : Mode) (f : Img Float) (contig : Bool)
     (sigmas : List Float) (orders : List Nat) : List Float :=
-  let step := fun (cur : Img Float) (ax : Nat) =>
-    let w := gaussWeights (sigmas.getD ax 1.0) (orders.getD ax 0)
-    -- the first pass reads a C-contiguous copy (`output[...] = array`), so every pass can take the fast path
-    mkImg f.shape (convolve1dModel dt m cur true ax w).1
+  -- the first pass reads a C-contiguous copy (`output[...] = array`), so every pass can take the fast path
   let _ := contig
-  ((List.range f.shape.length).foldl step f).data.toList
+  (gaussianFilterG (castTo dt) fIsZero m f fun ax =>
+    (gaussWeights (sigmas.getD ax 1.0) (orders.getD ax 0)).map (castTo dt)).data.toList
+
+/-- `alpha = max(0, min(alpha, 1))` as Python evaluates it (`min` / `max` return the first argument
+    unless a later one is strictly smaller / larger) -/
+def clampAlpha (a : Float) : Float :=
+  let y := if 1 < a then 1 else a
+  if 0 < y then y else 0
 
 def modeOf (a : Args) : Mode := (Mode.ofCode (a.nat "mode")).getD .reflect
 
@@ -217,6 +271,10 @@ def handle (a : Args) : String :=
     let xs := fastXs w.size N1
     let vals := out.toList.map fun | some v => castTo dt v | none => 0
     s!"xs={showNats xs} unwritten={(out.toList.filter Option.isNone).length} out={showFloats vals}"
+  | "laplacian" =>
+    -- `laplacian_2D(array, alpha)` = `convolve(array as double, weights(alpha), mode='nearest')`
+    let w := laplacianWeightsG Float.ofNat (clampAlpha ((a.floats "alpha").headD 0.2))
+    s!"spec={showFloats (convolveSpec "f64" .nearest f [3, 3] w)} model={showFloats (convolveModel "f64" .nearest f [3, 3] w)}"
   | "gaussw" =>
     s!"w={showFloats (gaussWeights ((a.floats "sigma").headD 1.0) (a.nat "order")).toList}"
   | "gaussian1d" =>
